@@ -153,6 +153,9 @@ func runFromSnapshot(ref *faultRef, dir string, h, upto uint32, upstreamFail str
 	}
 	if stmtFail > 0 {
 		Wrap.FailAt[stmtFail] = true
+	} else if stmtFail < 0 {
+		// the query itself succeeds, fetching its first row fails once
+		Wrap.FailRowsAt[-stmtFail] = true
 	}
 	d.Start()
 	synced, msg := d.StepTo(upto)
@@ -260,6 +263,7 @@ func scenFaults(rep *Report, tier string, seed int64) {
 		}
 		// every distinct call path is hit at least once (its first statement), whatever the stride
 		pick := map[int]bool{}
+		first := map[int]bool{}
 		seenPath := map[string]bool{}
 		for n := 1; n <= nst; n++ {
 			// (statements of one function that differ in their text are different sites: a function
@@ -271,6 +275,7 @@ func scenFaults(rep *Report, tier string, seed int64) {
 			if pth := stmts[n-1].Path + "|" + stmts[n-1].Kind + "|" + text; !seenPath[pth] {
 				seenPath[pth] = true
 				pick[n] = true
+				first[n] = true
 			}
 		}
 		for n := 1; n <= nst; n += step {
@@ -290,6 +295,19 @@ func scenFaults(rep *Report, tier string, seed int64) {
 			st := stmts[n-1]
 			rep.Count("fault-site:" + st.Path)
 			reportFault(rep, s, ref, seed, h, fmt.Sprintf("SQL statement %d (%s %q in %s) while syncing heights %d..%d", n, st.Kind, st.SQL, st.Path, h, upto), "statement:"+shortPath(st.Path), dump, msg, want)
+			// a query whose rows cannot be fetched (the lock timeout or I/O error of the first
+			// sqlite3_step surfaces at rows.Next, not at Query): once per distinct query site
+			if st.Kind == "query" && first[n] {
+				dump, msg, _, err := runFromSnapshot(ref, dir, h, upto, "", -n)
+				if err != nil {
+					rep.Note("infrastructure: %v", err)
+					return
+				}
+				rep.Case(fmt.Sprintf("rows|h=%d|n=%d", h, n), true)
+				rep.Count("fault:rows")
+				rep.Count("fault-rows-site:" + st.Path)
+				reportFault(rep, s, ref, seed, h, fmt.Sprintf("the rows of SQL query %d (%q in %s) failing at the first fetch while syncing heights %d..%d", n, st.SQL, st.Path, h, upto), "rows:"+shortPath(st.Path), dump, msg, want)
+			}
 		}
 		if len(rep.Samples) < 4 {
 			rep.Sample(map[string]interface{}{"height": h, "upstream_requests": nreq, "statements": nst})
